@@ -267,7 +267,7 @@ pub fn c05() -> i32 {
                 s.handshake_phase = true;
                 s.name = format!("{} round={round_ms}ms", s.name);
                 s.horizon = if round_ms == 16 { 14 } else { 12 };
-                s.probe = (3000 / round_ms as i32).max(30);
+                s.probe = (1600 / round_ms as i32).max(20);
                 s.checks = CK_C02;
                 s.fault = packet_faults(0, s.horizon, CLASS_HANDSHAKE, vec![Fate::Drop, Fate::Dup, Fate::Delay(2)], 0);
                 scns.push(s);
